@@ -43,6 +43,8 @@ def check(chk, fx):
                                      "characters are decoded)", goldenreg.GROUPS["REGEXFE"])
     from .. import termrules
     termrules.termapi(chk, fx)        # ids / names / data the parser and the lexer builder read
+    from .. import primrules
+    primrules.prims(chk, fx, "UTIL")
 
 
 def _optional_paths(chk, f, rule, name):
